@@ -37,7 +37,11 @@ def run_seed(args):
         assert sh(["git", "-C", "/repo", "worktree", "add", "--detach", wt, "HEAD"]).returncode == 0
         a = sh(["git", "-C", wt, "apply", os.path.join(VERIF, "seeded", sid, "patch.diff")])
         if a.returncode != 0:
-            return sid, {"error": "patch does not apply to HEAD: " + a.stderr[-300:]}
+            # the tree has moved (fix: commits): try a three-way application before giving up
+            a = sh(["git", "-C", wt, "apply", "--3way", os.path.join(VERIF, "seeded", sid, "patch.diff")])
+            st = sh(["git", "-C", wt, "diff", "--name-only", "--diff-filter=U"]).stdout.strip()
+            if a.returncode != 0 or st:
+                return sid, {"error": "patch does not apply to HEAD (also not three-way): " + (a.stderr[-300:] or st)}
         for c in checks:
             try:
                 r = sh([PY, os.path.join(copy, "harness", "vcheck.py"), "--property", c, "--tier", tier], cwd=copy,
